@@ -199,7 +199,8 @@ func (fs FileServer) serveFile(w http.ResponseWriter, r *http.Request) (int, err
 		}
 
 		encodedFileInfo, err := encodedFile.Stat()
-		if err != nil {
+		if err != nil || encodedFileInfo.IsDir() {
+			// (a directory that happens to be called file.gz is no copy of the file)
 			encodedFile.Close()
 			continue
 		}
